@@ -4,6 +4,7 @@ import (
 	"fmt"
 	"go/token"
 	"go/types"
+	"sort"
 	"strconv"
 	"strings"
 
@@ -647,10 +648,10 @@ func checkC38Directives(w *World, r *Run) {
 // with io.EOF; any other read error must abort it.
 func checkCacheFillCompletion(w *World, r *Run) {
 	rule := r.Rule("cache-fill-completes-only-on-eof", "F1",
-		"in the tee readers that fill a cache while streaming (object cache and part cache) the fill pipe is closed cleanly only where the source's Read returned io.EOF; other errors close it with the error so the partial entry is dropped", 3)
+		"in the tee readers that fill a cache while streaming (object cache and part cache) the fill pipe is closed cleanly only where the source's Read returned io.EOF; other errors, and a Close of the reader before EOF, close it with an error so the partial entry is dropped", 3)
 	n := 0
 	for _, fn := range w.allFuncs {
-		if fn.Pkg == nil || fn.Name() != "Read" || fn.Signature.Recv() == nil {
+		if fn.Pkg == nil || (fn.Name() != "Read" && fn.Name() != "Close") || fn.Signature.Recv() == nil {
 			continue
 		}
 		rel := pkgRel(fn.Pkg.Pkg)
@@ -691,7 +692,7 @@ func checkCacheFillCompletion(w *World, r *Run) {
 				good = false
 			}
 		}
-		r.Check(good, rule, funcName(fn)+" completes the cache fill only on io.EOF", fn.Pos(), "pipeWriter.Close() under err == io.EOF, CloseWithError otherwise", "the fill pipe is closed cleanly on an error other than io.EOF: a download that broke off mid-stream leaves its truncated bytes in the cache as a complete entry, served to later readers without error")
+		r.Check(good, rule, funcName(fn)+" completes the cache fill only on io.EOF", fn.Pos(), "pipeWriter.Close() under err == io.EOF, CloseWithError otherwise", "the fill pipe is closed cleanly on an error other than io.EOF (or when the reader is closed before its end): a download that broke off mid-stream leaves its truncated bytes in the cache as a complete entry, served to later readers without error")
 	}
 	if n == 0 {
 		r.Bad(rule, "cache tee readers", 0, "no streaming cache fill reader found (anchor lost)")
@@ -754,6 +755,29 @@ func checkTxFinalization(w *World, r *Run) {
 				}
 			}
 		}
+		// and on nothing else: whatever the driver's rollback answered (ErrTxDone after a
+		// cancelled context, a failed COMMIT), the hooks restore what pre-commit hooks moved
+		extra := ""
+		for _, b := range rb.Blocks {
+			for _, ins := range b.Instrs {
+				v, isSt := isFieldStore(ins, "finalized")
+				if !isSt {
+					continue
+				}
+				if bv, isb := boolConst(v); !isb || !bv {
+					continue
+				}
+				for _, f := range factsAt(b) {
+					if nm, _ := fieldLoadName(f.Val); nm != "finalized" && nm != "ownsFinalization" {
+						extra = describeVal(f.Val)
+						if c, isCall := f.Val.(*ssa.Call); isCall && calleeObj(c) != nil {
+							extra = calleeObj(c).Name() + "(…)"
+						}
+					}
+				}
+			}
+		}
+		r.Check(extra == "", rule, "TxController.Rollback runs its hooks whatever the driver's rollback returned", rb.Pos(), "hooks depend only on ownsFinalization and finalized", "the rollback hooks are skipped depending on "+extra+": when the driver already ended the transaction (failed COMMIT, cancelled context) files moved aside by pre-commit hooks are never restored although the database rolled back")
 		r.Check(ok, rule, "TxController.Rollback runs its hooks once, on the not-finalized path", rb.Pos(), "finalized checked false, then set, then hooks", "rollback hooks can run twice or after a successful commit")
 	} else {
 		r.Anchor(rule, "TxController.Rollback")
@@ -1195,4 +1219,791 @@ func checkC31GuardRoles(w *World, r *Run) {
 		checkCallArgs(fn, "authorizeRequestWithRequestTags", "makeAuthorizationRequest", map[int]role{1: {false, "operation"}, 2: {false, "bucket"}, 3: {false, "key"}})
 		checkCallArgs(fn, "authorizeRequestWithRequestTags", "bindExistingObjectTagsResolver", map[int]role{2: {false, "bucket"}, 3: {false, "key"}})
 	}
+}
+
+// expandFalse: the values known to be false at block b, with `x := a || b || c; if x` undone:
+// a phi that is false arrived over an edge carrying a non-true value, so that value is false
+// and so is everything the edge's source block knows to be false.
+func expandFalse(b *ssa.BasicBlock) []ssa.Value {
+	var out []ssa.Value
+	seen := map[ssa.Value]bool{}
+	var addFacts func(fs []Fact, depth int)
+	var addVal func(v ssa.Value, depth int)
+	addVal = func(v ssa.Value, depth int) {
+		if v == nil || seen[v] || depth > 6 {
+			return
+		}
+		seen[v] = true
+		out = append(out, v)
+		phi, ok := v.(*ssa.Phi)
+		if !ok {
+			return
+		}
+		var live []int
+		for i, e := range phi.Edges {
+			if bv, isC := boolConst(e); isC && bv {
+				continue
+			}
+			live = append(live, i)
+		}
+		if len(live) != 1 {
+			return
+		}
+		i := live[0]
+		addVal(phi.Edges[i], depth+1)
+		pred := phi.Block().Preds[i]
+		addFacts(append(factsAt(pred), lastEdgeFacts(pred, phi.Block())...), depth+1)
+	}
+	addFacts = func(fs []Fact, depth int) {
+		for _, f := range fs {
+			if f.Kind == IsFalse {
+				addVal(f.Val, depth)
+			}
+		}
+	}
+	addFacts(factsAt(b), 0)
+	return out
+}
+
+// checkC06EarlyStop: the filtering list loop may stop in the middle of a storage page when
+// the response is full. It may then claim "not truncated" only if nothing of the page is left:
+// no further object, no common prefix, and the storage page itself was the last one.
+func checkC06EarlyStop(w *World, r *Run) {
+	rule := r.Rule("a-full-response-is-final-only-if-nothing-is-left", "F1",
+		"in listAndFilterObjects every return from inside the object loop that does not set IsTruncated is reached only where objectIndex < len(result.Objects)-1, len(result.CommonPrefixes) > 0 and result.IsTruncated are all false", 1)
+	fn := w.SSAFunc(relServer, "Server.listAndFilterObjects")
+	if fn == nil {
+		r.Anchor(rule, relServer+".Server.listAndFilterObjects")
+		return
+	}
+	// the block that loads the current element of result.Objects
+	var elemBlock *ssa.BasicBlock
+	var idx ssa.Value
+	allInstrs(fn, false, func(_ *ssa.Function, ins ssa.Instruction) {
+		ia, ok := ins.(*ssa.IndexAddr)
+		if !ok || elemBlock != nil {
+			return
+		}
+		if derivesFromFieldOf(ia.X, "Objects", nil) && !derivesFromFieldOf(ia.X, "CommonPrefixes", nil) {
+			elemBlock, idx = ia.Block(), ia.Index
+		}
+	})
+	if elemBlock == nil {
+		r.Bad(rule, "listAndFilterObjects: early stop", fn.Pos(), "the loop over result.Objects was not found")
+		return
+	}
+	n := 0
+	for _, ret := range returnsOf(fn) {
+		if ret.Block() == fn.Recover || !elemBlock.Dominates(ret.Block()) || len(ret.Results) < 3 {
+			continue
+		}
+		if !isNilConst(stripConv(retResult(ret, 2))) {
+			continue // error return
+		}
+		res := retResult(ret, 0)
+		if isNilConst(stripConv(res)) {
+			continue
+		}
+		truncated := false
+		if al, ok := res.(*ssa.Alloc); ok {
+			if refs := al.Referrers(); refs != nil {
+				for _, ref := range *refs {
+					if fa, ok := ref.(*ssa.FieldAddr); ok && fieldName(fa.X.Type(), fa.Field) == "IsTruncated" {
+						for _, sv := range storesTo(fa) {
+							if bv, isC := boolConst(sv); !isC || bv {
+								truncated = true
+							}
+						}
+					}
+				}
+			}
+		} else {
+			truncated = true // not a literal: cannot be judged here
+		}
+		if truncated {
+			continue
+		}
+		n++
+		var moreObjects, morePrefixes, pageTruncated bool
+		for _, v := range expandFalse(ret.Block()) {
+			if nm, _ := fieldLoadName(v); nm == "IsTruncated" {
+				pageTruncated = true
+			}
+			bo, ok := v.(*ssa.BinOp)
+			if !ok {
+				continue
+			}
+			switch bo.Op {
+			case token.LSS:
+				if sameValue(bo.X, idx) && sliceContains(bo.Y, false, func(x ssa.Value) bool { return isLenOf(x, func(y ssa.Value) bool { return derivesFromFieldOf(y, "Objects", nil) }) }) {
+					moreObjects = true
+				}
+			case token.GTR:
+				if isLenOf(bo.X, func(y ssa.Value) bool { return derivesFromFieldOf(y, "CommonPrefixes", nil) }) {
+					if k, isC := intConst(bo.Y); isC && k == 0 {
+						morePrefixes = true
+					}
+				}
+			}
+		}
+		cons := "listAndFilterObjects: full response inside a page claims completeness"
+		if n > 1 {
+			cons += " #" + strconv.Itoa(n)
+		}
+		missing := []string{}
+		if !moreObjects {
+			missing = append(missing, "objects after the current one in the page")
+		}
+		if !morePrefixes {
+			missing = append(missing, "common prefixes of the page")
+		}
+		if !pageTruncated {
+			missing = append(missing, "a truncated storage page")
+		}
+		r.Check(len(missing) == 0, rule, cons, ret.Pos(), "index is the last, no common prefixes, page not truncated", "IsTruncated=false is returned without having excluded "+strings.Join(missing, ", ")+": when the authorizer hides some keys the response can fill up mid-page and the remaining visible keys are never listed")
+	}
+	if n == 0 {
+		r.OK(rule, "listAndFilterObjects: full response inside a page claims completeness", fn.Pos(), "no return from inside the object loop claims a complete listing")
+	}
+}
+
+// checkC07DeleteCondition: a DeleteObject carrying If-Match must compare the ETag of the row
+// it is about to remove (or hide behind a delete marker) before any row is written — on the
+// versioned, suspended and unversioned branch alike.
+func checkC07DeleteCondition(w *World, r *Run) {
+	rule := r.Rule("conditional-delete-tests-the-etag-before-any-effect", "F1",
+		"in the SQL metadata store's DeleteObject every mutating repository call is reachable only over an edge that established: no options, no If-Match, If-Match is the wildcard, or the row's ETag equals *If-Match", 5)
+	fn := w.SSAFunc("internal/storage/metadatapart/metadatastore/sql", "sqlMetadataStore.DeleteObject")
+	if fn == nil {
+		r.Anchor(rule, "sql.sqlMetadataStore.DeleteObject")
+		return
+	}
+	isOpts := func(v ssa.Value) bool {
+		p, ok := stripConv(v).(*ssa.Parameter)
+		return ok && strings.HasSuffix(p.Type().String(), "DeleteObjectOptions")
+	}
+	isIfMatchPtr := func(v ssa.Value) bool {
+		n, base := fieldLoadName(v)
+		return n == "IfMatchETag" && base != nil
+	}
+	isIfMatchVal := func(v ssa.Value) bool {
+		ld, ok := stripConv(v).(*ssa.UnOp)
+		return ok && ld.Op == token.MUL && isIfMatchPtr(ld.X)
+	}
+	pred := func(f Fact) bool {
+		switch f.Kind {
+		case IsNil:
+			return isOpts(f.Val) || isIfMatchPtr(f.Val)
+		case EqConst:
+			if f.Const != nil {
+				return isIfMatchVal(f.Val) // == wildcard constant
+			}
+			if f.Other != nil {
+				a, _ := fieldLoadName(f.Val)
+				b, _ := fieldLoadName(f.Other)
+				return (a == "ETag" && isIfMatchVal(f.Other)) || (b == "ETag" && isIfMatchVal(f.Val))
+			}
+		}
+		return false
+	}
+	n := 0
+	allInstrs(fn, false, func(_ *ssa.Function, ins ssa.Instruction) {
+		c, ok := ins.(ssa.CallInstruction)
+		if !ok {
+			return
+		}
+		g := calleeObj(c)
+		if g == nil {
+			return
+		}
+		name := g.Name()
+		mut := false
+		for _, p := range []string{"Save", "Delete", "Update", "Remove", "remove", "Replace", "replace"} {
+			if strings.HasPrefix(name, p) {
+				mut = true
+			}
+		}
+		if !mut || (!c.Common().IsInvoke() && recvNamed(g) == nil) {
+			return
+		}
+		n++
+		cons := "sql DeleteObject → " + name
+		k := 1
+		for r.hasConstruct(rule, cons) {
+			k++
+			cons = "sql DeleteObject → " + name + " #" + strconv.Itoa(k)
+		}
+		r.Check(everyPathEstablishes(ins.Block(), pred), rule, cons, posOf(ins), "after the If-Match test", "a path reaches this write without the caller's If-Match having been compared with the row's ETag: a deleter holding a stale ETag removes (or hides behind a delete marker) a newer acknowledged write")
+	})
+	if n == 0 {
+		r.Bad(rule, "sql DeleteObject: mutating calls", fn.Pos(), "no repository write found")
+	}
+}
+
+// checkC11EmptyMetadata: parseObjectMetadataHeaders may answer "the request carries no
+// metadata" (nil) only after having seen every field of ObjectMetadata absent; a field missing
+// from that test is dropped whenever it is the only one supplied.
+func checkC11EmptyMetadata(w *World, r *Run) {
+	rule := r.Rule("no-metadata-means-every-field-absent", "F3",
+		"the nil result of parseObjectMetadataHeaders is dominated by a nil test of every field of storage.ObjectMetadata", 1)
+	fn := w.SSAFunc(relServer, "parseObjectMetadataHeaders")
+	md := w.Named("internal/storage", "ObjectMetadata")
+	if fn == nil || md == nil {
+		r.Anchor(rule, relServer+".parseObjectMetadataHeaders / storage.ObjectMetadata")
+		return
+	}
+	n := 0
+	for _, ret := range returnsOf(fn) {
+		if len(ret.Results) != 2 || !isNilConst(stripConv(retResult(ret, 0))) || !isNilConst(stripConv(retResult(ret, 1))) {
+			continue
+		}
+		n++
+		tested := map[string]bool{}
+		for _, f := range factsAt(ret.Block()) {
+			if f.Kind != IsNil {
+				continue
+			}
+			if nm, _ := fieldLoadName(f.Val); nm != "" {
+				tested[nm] = true
+			}
+		}
+		var missing []string
+		for _, fld := range structFieldsOf(md) {
+			if !tested[fld.Name()] {
+				missing = append(missing, fld.Name())
+			}
+		}
+		cons := "parseObjectMetadataHeaders: nil result"
+		if n > 1 {
+			cons += " #" + strconv.Itoa(n)
+		}
+		r.Check(len(missing) == 0, rule, cons, ret.Pos(), "all fields tested absent", "the request is treated as carrying no metadata although "+strings.Join(missing, ", ")+" was not tested: a write supplying only that header loses it (and a REPLACE copy clears the metadata instead of storing it)")
+	}
+	if n == 0 {
+		r.OK(rule, "parseObjectMetadataHeaders: nil result", fn.Pos(), "never answers nil without an error")
+	}
+}
+
+// checkReadersKeepBytes: the io.Reader contract allows Read to return n > 0 together with an
+// error (notably io.EOF). Code that receives (n, err) from a Read must not drop those n bytes:
+//   - a Read wrapper (a method Read(p) (int, error) calling an inner Read) may return 0 after
+//     the inner call only where n == 0 (or n <= 0) is established;
+//   - ioutils.ReadChunk extends its buffer by n before it looks at err.
+func checkReadersKeepBytes(w *World, r *Run, rule string) {
+	isReadCall := func(c *ssa.Call) bool {
+		g := calleeObj(c)
+		if g == nil || g.Name() != "Read" {
+			return false
+		}
+		sig, _ := g.Type().(*types.Signature)
+		if sig == nil || sig.Params().Len() != 1 || sig.Results().Len() != 2 {
+			return false
+		}
+		if _, isSlice := sig.Params().At(0).Type().Underlying().(*types.Slice); !isSlice {
+			return false
+		}
+		return isErrorType(sig.Results().At(1).Type())
+	}
+	nZero := func(n ssa.Value, at *ssa.BasicBlock) bool {
+		for _, f := range factsAt(at) {
+			if f.Kind == EqConst && f.Const != nil && sameValue(f.Val, n) {
+				if k, ok := intConst(f.Const); ok && k == 0 {
+					return true
+				}
+			}
+			b, isB := f.Val.(*ssa.BinOp)
+			if !isB || !sameValue(b.X, n) {
+				continue
+			}
+			k, isC := intConst(b.Y)
+			if !isC {
+				continue
+			}
+			switch {
+			case b.Op == token.GTR && k == 0 && f.Kind == IsFalse,
+				b.Op == token.GEQ && k == 1 && f.Kind == IsFalse,
+				b.Op == token.LEQ && k == 0 && f.Kind == IsTrue,
+				b.Op == token.LSS && k == 1 && f.Kind == IsTrue:
+				return true
+			}
+		}
+		return false
+	}
+	sites := 0
+	for _, fn := range w.allFuncs {
+		if fn.Pkg == nil || !strings.HasPrefix(fn.Pkg.Pkg.Path(), "github.com/jdillenkofer/pithos/") || fn.Name() != "Read" {
+			continue
+		}
+		sig := fn.Signature
+		if sig.Results().Len() != 2 || !isErrorType(sig.Results().At(1).Type()) {
+			continue
+		}
+		allInstrs(fn, false, func(_ *ssa.Function, ins ssa.Instruction) {
+			c, ok := ins.(*ssa.Call)
+			if !ok || !isReadCall(c) {
+				return
+			}
+			var n ssa.Value
+			if refs := c.Referrers(); refs != nil {
+				for _, ref := range *refs {
+					if e, ok := ref.(*ssa.Extract); ok && e.Index == 0 {
+						n = e
+					}
+				}
+			}
+			if n == nil {
+				return // result returned whole
+			}
+			sites++
+			cons := strings.TrimPrefix(funcName(fn), "internal/") + ": bytes of the inner Read"
+			bad := token.NoPos
+			for _, ret := range returnsOf(fn) {
+				if ret.Block() == fn.Recover || !canReach(c, ret) || !c.Block().Dominates(ret.Block()) {
+					continue
+				}
+				rn := retResult(ret, 0)
+				if k, isC := intConst(rn); isC && k == 0 && !nZero(n, ret.Block()) {
+					bad = ret.Pos()
+				}
+			}
+			r.Check(bad == token.NoPos, rule, cons, func() token.Pos {
+				if bad != token.NoPos {
+					return bad
+				}
+				return c.Pos()
+			}(), "0 is returned only where n == 0", "after the inner Read delivered n bytes the wrapper can return 0: bytes handed over together with io.EOF (or another error) are dropped from the stream")
+		})
+	}
+	if fn := w.SSAFunc("internal/ioutils", "ReadChunk"); fn == nil {
+		r.Anchor(rule, "ioutils.ReadChunk")
+	} else {
+		var rd *ssa.Call
+		allInstrs(fn, false, func(_ *ssa.Function, ins ssa.Instruction) {
+			if c, ok := ins.(*ssa.Call); ok && isReadCall(c) {
+				rd = c
+			}
+		})
+		good := false
+		if rd != nil {
+			var ext ssa.Instruction
+			allInstrs(fn, false, func(_ *ssa.Function, ins ssa.Instruction) {
+				sl, ok := ins.(*ssa.Slice)
+				if !ok || sl.High == nil {
+					return
+				}
+				if sliceContains(sl.High, false, func(x ssa.Value) bool {
+					e, ok := x.(*ssa.Extract)
+					return ok && e.Tuple == ssa.Value(rd) && e.Index == 0
+				}) {
+					ext = sl
+				}
+			})
+			good = ext != nil
+			for _, ret := range returnsOf(fn) {
+				if ext != nil && rd.Block().Dominates(ret.Block()) && canReach(rd, ret) && !instrDominates(ext, ret) {
+					good = false
+				}
+			}
+		}
+		sites++
+		r.Check(good, rule, "ioutils.ReadChunk: buffer extended by n before err is examined", fn.Pos(), "buf = buf[:len(buf)+n] dominates the error return", "ReadChunk returns on the reader's error without having added the n bytes delivered with it: a source whose last Read returns (n>0, io.EOF) — an HTTP request body with Content-Length does — loses its tail, and PutPart stores a truncated part")
+	}
+	if sites == 0 {
+		r.Bad(rule, "Read wrappers", token.NoPos, "no Read wrapper found")
+	}
+}
+
+// checkC09PagedListings: the collector learns what a store holds through GetPartIds. The
+// cloud stores list page by page; the listing is complete only if it goes on until the
+// service's continuation marker says so — a short page does not mean a last page.
+func checkC09PagedListings(w *World, r *Run) {
+	rule := r.Rule("paged-listings-stop-only-on-the-continuation-marker", "F1",
+		"in GetPartIds of the Google Drive, Dropbox and OneDrive part stores no branch outside the per-item loops depends on the number of items a page carried (len of the page's item list)", 3)
+	for _, st := range []struct{ rel, fn, items string }{
+		{"internal/storage/metadatapart/partstore/gdrive", "gdrivePartStore.GetPartIds", "Files"},
+		{"internal/storage/metadatapart/partstore/dropbox", "dropboxPartStore.GetPartIds", "Entries"},
+		{"internal/storage/metadatapart/partstore/onedrive", "store.GetPartIds", "Value"},
+	} {
+		fn := w.SSAFunc(st.rel, st.fn)
+		if fn == nil {
+			r.Anchor(rule, st.rel+"."+st.fn)
+			continue
+		}
+		bad := token.NoPos
+		for _, b := range fn.Blocks {
+			if len(b.Instrs) == 0 {
+				continue
+			}
+			iff, ok := b.Instrs[len(b.Instrs)-1].(*ssa.If)
+			if !ok || isLoopTest(iff) {
+				continue
+			}
+			if sliceContains(iff.Cond, false, func(x ssa.Value) bool {
+				return isLenOf(x, func(y ssa.Value) bool { return derivesFromFieldOf(y, st.items, nil) })
+			}) {
+				bad = posOf(iff)
+			}
+		}
+		cons := strings.TrimPrefix(st.rel, "internal/storage/metadatapart/partstore/") + " GetPartIds: pagination ends on the continuation marker only"
+		pos := fn.Pos()
+		if bad != token.NoPos {
+			pos = bad
+		}
+		r.Check(bad == token.NoPos, rule, cons, pos, "no branch on the page's item count", "the listing loop branches on how many items the page carried: services may return a short page together with a continuation marker, so parts listed behind it are never seen by the collector and stay in the store forever")
+	}
+}
+
+// checkC23Rewind: a request body is forwarded to the primary and then to every secondary from
+// one cached reader. Each secondary must receive it from the start: the Seek(0, SeekStart)
+// belongs inside the loop over the secondaries, before the forward of that iteration.
+func checkC23Rewind(w *World, r *Run) {
+	rule := r.Rule("body-rewound-for-every-secondary", "F1",
+		"every call on a secondary storage that passes a reader is dominated by a Seek on that reader located in the same loop iteration (after the loop test)", 3)
+	T := w.Named("internal/storage/replication", "replicationStorage")
+	if T == nil {
+		r.Anchor(rule, "replication.replicationStorage")
+		return
+	}
+	n := 0
+	for _, fn := range w.allFuncs {
+		if fn.Signature.Recv() == nil || recvNamedOfSig(fn.Signature) != T {
+			continue
+		}
+		allInstrs(fn, false, func(_ *ssa.Function, ins ssa.Instruction) {
+			c, ok := ins.(ssa.CallInstruction)
+			if !ok || !c.Common().IsInvoke() {
+				return
+			}
+			if _, isStorage := storageMethods[c.Common().Method.Name()]; !isStorage {
+				return
+			}
+			// receiver is an element of rs.secondaryStorages
+			if !derivesFromFieldOf(c.Common().Value, "secondaryStorages", nil) {
+				return
+			}
+			var body ssa.Value
+			for _, a := range c.Common().Args {
+				ts := a.Type().String()
+				if strings.HasSuffix(ts, "io.Reader") || strings.Contains(ts, "ReadSeekCloser") || strings.HasSuffix(ts, "io.ReadSeeker") {
+					body = a
+				}
+			}
+			if body == nil {
+				return
+			}
+			n++
+			// innermost loop test dominating the call
+			var head *ssa.BasicBlock
+			for d := ins.Block().Idom(); d != nil && head == nil; d = d.Idom() {
+				if len(d.Instrs) == 0 {
+					continue
+				}
+				if iff, ok := d.Instrs[len(d.Instrs)-1].(*ssa.If); ok && isLoopTest(iff) {
+					head = d
+				}
+			}
+			good := false
+			allInstrs(fn, false, func(_ *ssa.Function, i2 ssa.Instruction) {
+				s, ok := i2.(ssa.CallInstruction)
+				if !ok || !s.Common().IsInvoke() || s.Common().Method.Name() != "Seek" {
+					return
+				}
+				if !sameValue(stripConv(s.Common().Value), stripConv(body)) && !sliceContains(body, false, func(x ssa.Value) bool { return x == s.Common().Value }) {
+					return
+				}
+				if k, isC := intConst(s.Common().Args[0]); !isC || k != 0 {
+					return
+				}
+				if instrDominates(i2, ins) && head != nil && head.Dominates(i2.Block()) && head != i2.Block() {
+					good = true
+				}
+			})
+			cons := strings.TrimPrefix(funcName(fn), "internal/storage/replication.") + " → secondary." + c.Common().Method.Name() + ": body rewound in the iteration"
+			r.Check(good, rule, cons, posOf(ins), "Seek(0, SeekStart) inside the loop before the forward", "the body is not rewound inside the loop over the secondaries: the first secondary leaves the reader at its end, every further secondary receives an empty body and silently diverges from the primary")
+		})
+	}
+	if n == 0 {
+		r.Bad(rule, "replication: secondaries receiving a body", token.NoPos, "no forward of a reader to a secondary found")
+	}
+}
+
+func recvNamedOfSig(sig *types.Signature) *types.Named {
+	if sig == nil || sig.Recv() == nil {
+		return nil
+	}
+	t := sig.Recv().Type()
+	if p, ok := t.(*types.Pointer); ok {
+		t = p.Elem()
+	}
+	n, _ := types.Unalias(t).(*types.Named)
+	return n
+}
+
+// checkC24CopyClass: the storage class of a copy's destination is the one the request names
+// (absent means STANDARD) on both routes; the cross-storage route must not inherit the
+// source object's class, which the same-storage route never does.
+func checkC24CopyClass(w *World, r *Run) {
+	rule := r.Rule("cross-storage-copy-takes-the-class-from-the-request", "F9",
+		"every value stored into PutObjectOptions.StorageClass by the conditional middleware's CopyObject derives from the StorageClass of the CopyObjectOptions parameter and from nothing read off the source object", 1)
+	fn := w.SSAFunc("internal/storage/middlewares/conditional", "conditionalStorageMiddleware.CopyObject")
+	if fn == nil {
+		r.Anchor(rule, "conditional.conditionalStorageMiddleware.CopyObject")
+		return
+	}
+	var opts *ssa.Parameter
+	for _, p := range fn.Params {
+		if strings.HasSuffix(p.Type().String(), "CopyObjectOptions") {
+			opts = p
+		}
+	}
+	stores := fieldStoresIn(fn, true, "PutObjectOptions")["StorageClass"]
+	if len(stores) == 0 || opts == nil {
+		r.Bad(rule, "conditional.CopyObject: PutObjectOptions.StorageClass", fn.Pos(), "no store to PutObjectOptions.StorageClass found: the requested class is dropped on the cross-storage route")
+		return
+	}
+	good, why := true, ""
+	for _, st := range stores {
+		if isNilConst(stripConv(st.val)) {
+			continue
+		}
+		fromReq := derivesFromFieldOf(st.val, "StorageClass", func(b ssa.Value) bool { return b == opts })
+		fromSrc := sliceContains(st.val, false, func(x ssa.Value) bool {
+			c, ok := x.(*ssa.Call)
+			return ok && (isCallNamed(c, "HeadObject") || isCallNamed(c, "GetObject"))
+		})
+		if !fromReq || fromSrc {
+			good, why = false, "a value read from the source object is stored as the destination's class"
+		}
+	}
+	r.Check(good, rule, "conditional.CopyObject: PutObjectOptions.StorageClass", fn.Pos(), "opts.StorageClass only", why+": a cross-storage copy of a STANDARD_IA/GLACIER source without x-amz-storage-class lands in that class where a same-storage copy lands in STANDARD")
+}
+
+// checkC33HostRouting: which handler serves a request is decided by the Host header. The
+// read/write API handler may be chosen only for the API endpoint itself or a host ending in
+// "." + endpoint; a bare suffix test would hand custom-domain and website hosts that merely
+// end in the endpoint string (cdn-s3.localhost for s3.localhost) to the API.
+func checkC33HostRouting(w *World, r *Run) {
+	rule := r.Rule("host-routing-matches-whole-labels", "F1",
+		"in MakeHostnameRoutingHandler every strings.HasSuffix/TrimSuffix on the request host uses \".\"+endpoint, never the bare endpoint; the API handler is reached only under host == apiEndpoint or such a suffix match", 2)
+	fn := w.SSAFunc("internal/http/middleware", "MakeHostnameRoutingHandler")
+	if fn == nil {
+		r.Anchor(rule, "middleware.MakeHostnameRoutingHandler")
+		return
+	}
+	n := 0
+	allInstrs(fn, true, func(_ *ssa.Function, ins ssa.Instruction) {
+		c, ok := ins.(*ssa.Call)
+		if !ok {
+			return
+		}
+		g := calleeObj(c)
+		if g == nil || g.Pkg() == nil || g.Pkg().Path() != "strings" || (g.Name() != "HasSuffix" && g.Name() != "TrimSuffix") {
+			return
+		}
+		n++
+		// the suffix operand: a free variable / value built as "." + <endpoint parameter>
+		dotted := sliceContains(c.Call.Args[1], false, func(x ssa.Value) bool {
+			b, ok := x.(*ssa.BinOp)
+			if !ok || b.Op != token.ADD {
+				return false
+			}
+			s, isStr := constString(b.X)
+			return isStr && s == "."
+		})
+		cons := "MakeHostnameRoutingHandler: " + g.Name() + " #" + strconv.Itoa(n)
+		r.Check(dotted, rule, cons, c.Pos(), "suffix is \".\"+endpoint", "the host is matched against the bare endpoint string: a host that merely ends in it (cdn-"+"s3.example for s3.example) is routed like the endpoint — custom-domain and website hosts reach the read/write API")
+	})
+	if n == 0 {
+		r.Bad(rule, "MakeHostnameRoutingHandler: suffix tests", fn.Pos(), "no suffix test on the host found")
+	}
+}
+
+// checkC32ListUnfiltered: the authorizer decides "no proxy list configured → trust the peer"
+// versus "a list is configured → trust only members; entries that do not parse match nobody".
+// That distinction survives only if the configured list reaches it as configured: a getter
+// that drops malformed entries turns "all entries malformed" into "nothing configured".
+func checkC32ListUnfiltered(w *World, r *Run) {
+	rule := r.Rule("configured-proxy-list-reaches-the-authorizer-as-configured", "F9",
+		"Settings.TrustedProxyCIDRs returns the configured slice itself (or an empty slice only where the field is nil): no element is added, dropped or rewritten on the way", 1)
+	fn := w.SSAFunc("internal/settings", "Settings.TrustedProxyCIDRs")
+	if fn == nil {
+		r.Anchor(rule, "settings.Settings.TrustedProxyCIDRs")
+		return
+	}
+	good, why := true, ""
+	for _, ret := range returnsOf(fn) {
+		if ret.Block() == fn.Recover || len(ret.Results) != 1 {
+			continue
+		}
+		v := retResult(ret, 0)
+		if n, _ := fieldLoadName(stripConv(v)); n == "trustedProxyCIDRs" {
+			continue
+		}
+		// otherwise: a fresh, empty slice under "field == nil"
+		fieldNil := false
+		for _, f := range factsAt(ret.Block()) {
+			if n, _ := fieldLoadName(f.Val); n == "trustedProxyCIDRs" && f.Kind == IsNil {
+				fieldNil = true
+			}
+		}
+		rebuilt := sliceContains(v, false, func(x ssa.Value) bool { return isBuiltinCall(x, "append") })
+		if !fieldNil || rebuilt {
+			good, why = false, "a slice other than the configured one is returned"
+			if rebuilt {
+				why = "the returned slice is rebuilt element by element"
+			}
+		}
+	}
+	r.Check(good, rule, "Settings.TrustedProxyCIDRs returns the configured list", fn.Pos(), "the field, or empty when nil", why+": entries can be dropped before the authorizer sees them, so a list whose entries are all malformed arrives empty and every peer is trusted to set the client IP and scheme")
+}
+
+// checkC39ListingFeedsValidator: the validator takes each object's recorded digests, ETag,
+// checksum type and size from the listing (ListObjects). Every Object field the integrity
+// package reads must be filled by the SQL metadata store's listing, otherwise the comparison
+// runs against a zero value (a nil ChecksumType means FULL_OBJECT) and intact objects are
+// flagged — and deleted with --delete-corrupted.
+func checkC39ListingFeedsValidator(w *World, r *Run) {
+	rule := r.Rule("listing-fills-every-field-the-validator-reads", "F3",
+		"every field of storage.Object that package integrity selects is assigned in the Object literal of sqlMetadataStore.listObjects", 8)
+	obj := w.Named("internal/storage", "Object")
+	ipkg := w.Pkg("internal/storage/integrity")
+	lf := w.Func("internal/storage/metadatapart/metadatastore/sql", "sqlMetadataStore.listObjects")
+	if obj == nil || ipkg == nil || lf == nil || w.Decl(lf) == nil {
+		r.Anchor(rule, "storage.Object / integrity / sqlMetadataStore.listObjects")
+		return
+	}
+	objFields := map[*types.Var]bool{}
+	for _, f := range structFieldsOf(obj) {
+		objFields[f] = true
+	}
+	read := map[*types.Var]bool{}
+	for _, file := range ipkg.Syntax {
+		if strings.HasSuffix(w.Fset.Position(file.Pos()).Filename, "_test.go") {
+			continue
+		}
+		for f := range fieldsSelectedIn(ipkg.TypesInfo, file) {
+			if objFields[f] {
+				read[f] = true
+			}
+		}
+	}
+	fd := w.Decl(lf)
+	// the store's Object is a sibling struct of storage.Object (converted field by field in
+	// package metadatapart, which C04's same-name rule covers): compare by field name
+	assigned := map[string]bool{}
+	for f := range fieldsAssignedIn(w.InfoFor(fd), fd.Body) {
+		if ownerStructName(w, f) == "Object" {
+			assigned[f.Name()] = true
+		}
+	}
+	var names []string
+	for f := range read {
+		names = append(names, f.Name())
+	}
+	sort.Strings(names)
+	for _, n := range names {
+		r.Check(assigned[n], rule, "listObjects fills Object."+n, fd.Pos(), "assigned", "the validator reads Object."+n+" of listed objects but the listing leaves it zero: the recorded value is not what the comparison uses, so intact objects can be reported (and deleted) as corrupted or corrupted ones pass")
+	}
+	if len(names) == 0 {
+		r.Bad(rule, "integrity reads Object fields", fd.Pos(), "no field selection of storage.Object found in package integrity")
+	}
+}
+
+// checkC26VerifierAcceptsWhatIsWritten: verification must succeed on every log the middleware
+// writes. The writer stamps a LOG entry with time.Now() before it takes the chain mutex, so
+// under concurrency chained entries are not ordered by timestamp; the verifier may therefore
+// not reject on anything the writer does not establish under its mutex — in particular not on
+// the order of timestamps.
+func checkC26VerifierAcceptsWhatIsWritten(w *World, r *Run) {
+	rule := r.Rule("verifier-rejects-only-what-the-writer-guarantees", "F2",
+		"if the audit middleware stamps an entry's Timestamp outside its chain mutex, no failure return of Validator.ValidateEntry is control-dependent on a comparison of entry timestamps", 1)
+	logFn := w.SSAFunc("internal/storage/middlewares/audit", "AuditLogMiddleware.log")
+	val := w.SSAFunc("internal/auditlog", "Validator.ValidateEntry")
+	if logFn == nil || val == nil {
+		r.Anchor(rule, "audit.AuditLogMiddleware.log / auditlog.Validator.ValidateEntry")
+		return
+	}
+	// writer side: is the Timestamp of the chained entry taken with the mutex held?
+	stampedUnderLock := true
+	allInstrs(logFn, false, func(_ *ssa.Function, ins ssa.Instruction) {
+		st, ok := ins.(*ssa.Store)
+		if !ok {
+			return
+		}
+		fa, ok := st.Addr.(*ssa.FieldAddr)
+		if !ok || fieldName(fa.X.Type(), fa.Field) != "Timestamp" {
+			return
+		}
+		if !lockHeldAt(ins, "mu", false) {
+			stampedUnderLock = false
+		}
+	})
+	// reader side: failure returns depending on a time comparison
+	timeCmp := token.NoPos
+	for _, ret := range returnsOf(val) {
+		if ret.Block() == val.Recover || len(ret.Results) != 1 || isNilConst(stripConv(retResult(ret, 0))) {
+			continue
+		}
+		for _, f := range factsAt(ret.Block()) {
+			c, ok := f.Val.(*ssa.Call)
+			if !ok {
+				continue
+			}
+			g := calleeObj(c)
+			if g == nil || g.Pkg() == nil || g.Pkg().Path() != "time" || recvNamed(g) == nil || recvNamed(g).Obj().Name() != "Time" {
+				continue
+			}
+			switch g.Name() {
+			case "Before", "After", "Equal", "Compare":
+				timeCmp = ret.Pos()
+			}
+		}
+	}
+	r.Check(stampedUnderLock || timeCmp == token.NoPos, rule, "ValidateEntry does not reject on timestamp order", func() token.Pos {
+		if timeCmp != token.NoPos {
+			return timeCmp
+		}
+		return val.Pos()
+	}(), "no rejection on timestamps (or the writer stamps under its mutex)", "the verifier rejects an entry whose timestamp precedes its predecessor's, but the middleware takes time.Now() before it acquires the chain mutex: with concurrent requests an intact, correctly chained log fails verification (and the file sink refuses to reopen it)")
+}
+
+// checkC27RawBytesHashed: the entry hash must bind the recorded bytes themselves. The helpers
+// that feed a string or byte field into the hash pass the field's bytes on unchanged; a
+// normalising transformation (ToValidUTF8, ToLower, TrimSpace …) maps different recorded
+// values to one hash, so one can be replaced by the other without detection.
+func checkC27RawBytesHashed(w *World, r *Run) {
+	rule := r.Rule("hash-helpers-pass-the-recorded-bytes-unchanged", "F9",
+		"auditlog.writeString hands []byte(s) of its parameter to writeBytes, and writeBytes writes the length and the very slice it received: no call transforms the value in between", 2)
+	ws := w.SSAFunc("internal/auditlog", "writeString")
+	wb := w.SSAFunc("internal/auditlog", "writeBytes")
+	if ws == nil || wb == nil {
+		r.Anchor(rule, "auditlog.writeString / writeBytes")
+		return
+	}
+	okS := false
+	allInstrs(ws, false, func(_ *ssa.Function, ins ssa.Instruction) {
+		c, ok := ins.(*ssa.Call)
+		if !ok || !isCallNamed(c, "writeBytes") || len(c.Call.Args) != 2 {
+			return
+		}
+		okS = paramIndex(ws, stripConv(c.Call.Args[1])) == 1
+	})
+	r.Check(okS, rule, "writeString → writeBytes([]byte(s))", ws.Pos(), "the parameter's bytes", "the string is transformed before it is hashed: distinct recorded values (for instance different invalid UTF-8 byte sequences, which the binary format stores verbatim) hash alike and can be exchanged without detection")
+	okB, n := true, 0
+	allInstrs(wb, false, func(_ *ssa.Function, ins ssa.Instruction) {
+		c, ok := ins.(ssa.CallInstruction)
+		if !ok || !c.Common().IsInvoke() || c.Common().Method.Name() != "Write" {
+			return
+		}
+		n++
+		a := c.Common().Args[0]
+		if paramIndex(wb, stripConv(a)) == 1 {
+			return
+		}
+		// otherwise: the length prefix, built from len(b)
+		if !sliceContains(a, true, func(x ssa.Value) bool { return isLenOf(x, func(y ssa.Value) bool { return paramIndex(wb, y) == 1 }) }) {
+			okB = false
+		}
+	})
+	r.Check(okB && n > 0, rule, "writeBytes writes len(b) and b", wb.Pos(), "length prefix and the slice itself", "writeBytes hashes something other than the length and the bytes it was given")
 }
